@@ -7,9 +7,18 @@
  *            4..7 g_arr[0..3] (.data array)  8..11 s_zarr[0..3] (static .bss array)  12 function-local static
  *            13 g_dbl (.data double, holds integers)
  *   <rank> ws <k> <val> / <rank> rs <k> / <rank> rr <k>   store into sb[k] / print sb[k] / print rb[k] (stack buffers)
- *   <a> gsend <b> <m> and <b> grecv <a> <m>   one message of 4 ints with buffers chosen by m:
- *        m = gg: g_arr -> s_zarr (global to global)   gs: g_arr -> rb (global to stack)   sg: sb -> s_zarr (stack to global)
- * The script itself lives on the heap; sb / rb are on the stack; g_arr / s_zarr are globals used as message buffers by gsend. */
+ *   <a> gsend <b> <m> [kind] and <b> grecv <a> <m> [kind]   one message with buffers chosen by the two letters of m
+ *        (send buffer, receive buffer):  a = g_arr   z = s_zarr   s = the stack buffer (sb to send, rb to receive);
+ *        legacy spellings gg = az, gs = as, sg = sz.  So az / za are messages between DIFFERENT globals, aa / zz between
+ *        the two ranks' copies of the SAME global, as / zs global -> stack, sa / sz stack -> global.
+ *        kind: e (default) MPI_Send of 4 ints — below smpi/send-is-detached-thresh the data is duplicated on the heap by
+ *              Request::start at send time (detached send) and the copy callback sees a heap source;
+ *              y  MPI_Ssend of 4 ints (never detached: the copy callback reads the user's send buffer);
+ *              L  MPI_Send of the WHOLE arrays, NBIG ints = 64 KiB = the default threshold exactly (not detached);
+ *              i  MPI_Issend of 4 ints + MPI_Wait (never detached, the sender's slice goes on before the copy).
+ * g_arr, s_zarr, sb, rb have NBIG ints; the script sees [0..3] and the LAST element:
+ *   variables 14 = g_arr[NBIG-1], 15 = s_zarr[NBIG-1];  ws / rs / rr index 4 = sb / rb[NBIG-1].
+ * The script itself lives on the heap; sb / rb are on the stack. */
 #include <mpi.h>
 #include <stdio.h>
 #include <stdlib.h>
@@ -19,8 +28,10 @@ int g_init = 5;
 int g_zero;
 static int s_init = 7;
 static int s_zero;
-int g_arr[4] = {1, 2, 3, 4};
-static int s_zarr[4];
+#define NBIG 16384 /* NBIG * sizeof(int) = 65536 = default smpi/send-is-detached-thresh: the smallest non-detached MPI_Send */
+int g_arr[NBIG] = {1, 2, 3, 4, [NBIG - 1] = 6};
+static int s_zarr[NBIG];
+#define IDX(k) ((k) < 4 ? (k) : NBIG - 1)
 double g_dbl = 9.0;
 
 static int* local_static(void)
@@ -38,6 +49,8 @@ static void store(int var, int val)
     case 3: s_zero = val; break;
     case 12: *local_static() = val; break;
     case 13: g_dbl = val; break;
+    case 14: g_arr[NBIG - 1] = val; break;
+    case 15: s_zarr[NBIG - 1] = val; break;
     default:
       if (var < 8) g_arr[var - 4] = val;
       else s_zarr[var - 8] = val;
@@ -53,6 +66,8 @@ static int load(int var)
     case 3: return s_zero;
     case 12: return *local_static();
     case 13: return (int)g_dbl;
+    case 14: return g_arr[NBIG - 1];
+    case 15: return s_zarr[NBIG - 1];
     default: return var < 8 ? g_arr[var - 4] : s_zarr[var - 8];
   }
 }
@@ -69,7 +84,9 @@ int main(int argc, char** argv)
     return 3;
   }
   char line[256];
-  int sb[4] = {0, 0, 0, 0}, rb[4] = {0, 0, 0, 0};
+  int sb[NBIG], rb[NBIG];
+  memset(sb, 0, sizeof sb);
+  memset(rb, 0, sizeof rb);
   while (fgets(line, sizeof line, f)) {
     char* tok[8];
     int nt = 0;
@@ -86,14 +103,31 @@ int main(int argc, char** argv)
       printf("R %d %d\n", rank, load(atoi(tok[2])));
       fflush(stdout);
     } else if (!strcmp(c, "ws"))
-      sb[atoi(tok[2])] = atoi(tok[3]);
+      sb[IDX(atoi(tok[2]))] = atoi(tok[3]);
     else if (!strcmp(c, "rs") || !strcmp(c, "rr")) {
-      printf("R %d %d\n", rank, c[1] == 's' ? sb[atoi(tok[2])] : rb[atoi(tok[2])]);
+      printf("R %d %d\n", rank, c[1] == 's' ? sb[IDX(atoi(tok[2]))] : rb[IDX(atoi(tok[2]))]);
       fflush(stdout);
-    } else if (!strcmp(c, "gsend"))
-      MPI_Send(tok[3][0] == 'g' ? g_arr : sb, 4, MPI_INT, atoi(tok[2]), 6, MPI_COMM_WORLD);
-    else if (!strcmp(c, "grecv"))
-      MPI_Recv(tok[3][1] == 'g' ? s_zarr : rb, 4, MPI_INT, atoi(tok[2]), 6, MPI_COMM_WORLD, MPI_STATUS_IGNORE);
+    } else if (!strcmp(c, "gsend")) {
+      char m       = tok[3][0];
+      char kind    = nt > 4 ? tok[4][0] : 'e';
+      const int* b = (m == 'g' || m == 'a') ? g_arr : m == 'z' ? s_zarr : sb;
+      int peer     = atoi(tok[2]);
+      if (kind == 'y')
+        MPI_Ssend(b, 4, MPI_INT, peer, 6, MPI_COMM_WORLD);
+      else if (kind == 'L')
+        MPI_Send(b, NBIG, MPI_INT, peer, 6, MPI_COMM_WORLD);
+      else if (kind == 'i') {
+        MPI_Request rq;
+        MPI_Issend(b, 4, MPI_INT, peer, 6, MPI_COMM_WORLD, &rq);
+        MPI_Wait(&rq, MPI_STATUS_IGNORE);
+      } else
+        MPI_Send(b, 4, MPI_INT, peer, 6, MPI_COMM_WORLD);
+    } else if (!strcmp(c, "grecv")) {
+      char m    = tok[3][1];
+      char kind = nt > 4 ? tok[4][0] : 'e';
+      int* b    = (m == 'g' || m == 'z') ? s_zarr : m == 'a' ? g_arr : rb;
+      MPI_Recv(b, kind == 'L' ? NBIG : 4, MPI_INT, atoi(tok[2]), 6, MPI_COMM_WORLD, MPI_STATUS_IGNORE);
+    }
     else if (!strcmp(c, "barrier"))
       MPI_Barrier(MPI_COMM_WORLD);
     else if (!strcmp(c, "bcast"))
